@@ -234,21 +234,22 @@ def userord_cases(cx, kind, nkeys):
     top_ul = s.top[1]
     seqs = tg.all_nodup_seqs(nkeys)
 
-    def inst(sn, k):
+    def inst(sn, k, changed=False):
         if sn.kind == "leaflist":
             return tg.DN(sn, str(k).encode())
         kids = []
         if sn.keys:
             kids.append(tg.DN(sn.kids[0], str(k).encode()))
-            kids.append(tg.DN(sn.kids[1], b"v%d" % k))
+            kids.append(tg.DN(sn.kids[1], (b"w%d" if changed else b"v%d") % k))
         else:
             kids.append(tg.DN(sn.kids[0], str(k).encode()))
         return tg.DN(sn, None, kids)
 
-    def tree(seq, nested):
+    def tree(seq, nested, vmask=0, az=(b"x", b"y")):
+        """vmask: bit k set = the non-key leaf of instance k has the other value; az: values of the leaves around the list"""
         if nested:
-            return [tg.DN(cont, None, [tg.DN(a, b"x")] + [inst(ul, k) for k in seq] + [tg.DN(z, b"y")])]
-        return [inst(top_ul, k) for k in seq]
+            return [tg.DN(cont, None, [tg.DN(a, az[0])] + [inst(ul, k, vmask >> k & 1) for k in seq] + [tg.DN(z, az[1])])]
+        return [inst(top_ul, k, vmask >> k & 1) for k in seq]
     return s, seqs, tree
 
 
@@ -504,6 +505,24 @@ def exhaustive(cx):
             # the (three times more expensive) print/parse routes of the law op as well
             process(cx, [s], cases[lo:lo + 6000], tag="x%s%d.%d" % (kind, nk, lo), laws=True, apply3=False,
                     law_mod=3 if nk >= 5 else 1)
+    # moves combined with changes INSIDE the moved instances and changes of the siblings around the list (the diff nodes of such
+    # instances exist before their move is recorded and are relocated by lyd_diff_add; a changed later sibling is then the
+    # last diff sibling): all ordered pairs over <= 3 keys x inner-change masks x changed neighbours
+    for kind in ("list", "statelist"):
+        nk = 4 if thorough else 3
+        s, seqs, tree = userord_cases(cx, kind, nk)
+        cases = []
+        masks = list(range(1 << (nk + 1))) if thorough else [(1 << (nk + 1)) - 1, 0b0101, 0b0110]
+        for ia, x in enumerate(seqs):
+            for ib, y in enumerate(seqs):
+                for vm in masks:
+                    for iz, az in enumerate(((b"x", b"y"), (b"x", b"y2"), (b"x2", b"y2"))):
+                        if thorough and (ia * 31 + ib * 7 + vm * 3 + iz) % 7:
+                            continue
+                        cases.append(Case(s, tree(x, True), tree(y, True, vm, az), "userord-inner-" + kind))
+        total += len(cases)
+        for lo in range(0, len(cases), 6000):
+            process(cx, [s], cases[lo:lo + 6000], tag="i%s%d.%d" % (kind, nk, lo), laws=True, apply3=False, law_mod=1)
     cx.exhaustive = True
     cx.notes.append("exhaustive: %d ordered pairs of duplicate-free user-ordered sequences; complete at the top level for %s"
                     % (total, ", ".join(complete)))
